@@ -92,9 +92,12 @@ def lit(v):
 
 def call_of(c):
     lim = limit(c)
+    nat_ok = c.get("argty") == "nat" and c["stop"] >= 0 and c.get("start", 0) >= 0
     if c["form"] == 1:
-        return f"r1({lit(c['stop'])}, {lim})"
+        return f"r1n(nat({c['stop']}), {lim})" if nat_ok else f"r1({lit(c['stop'])}, {lim})"
     if c["form"] == 2:
+        if nat_ok:
+            return f"r2n(nat({c['start']}), nat({c['stop']}), {lim})"
         return f"r2({lit(c['start'])}, {lit(c['stop'])}, {lim})"
     fn = "r3v" if c.get("shape") == "var" else "r3"
     return f"{fn}({lit(c['start'])}, {lit(c['stop'])}, {lit(c['step'])}, {lim})"
@@ -107,6 +110,26 @@ from guppylang.std.builtins import SizedIter, Range
 def r1(b: int, lim: int) -> None:
     k = 0
     for x in range(b):
+        result("v", x)
+        k += 1
+        if k >= lim:
+            break
+    result("n", k)
+
+@guppy
+def r1n(b: nat, lim: int) -> None:
+    k = 0
+    for x in range(b):
+        result("v", x)
+        k += 1
+        if k >= lim:
+            break
+    result("n", k)
+
+@guppy
+def r2n(a: nat, b: nat, lim: int) -> None:
+    k = 0
+    for x in range(a, b + nat(0)):
         result("v", x)
         k += 1
         if k >= lim:
@@ -420,6 +443,9 @@ def strategies():
              "shape": draw(st.sampled_from(["direct", "var"])) if form == 3 else "direct"}
         if form == 1:
             c["start"], c["step"] = 0, 1
+        if form in (1, 2):
+            # the same range with run-time arguments of type nat (expressions included)
+            c["argty"] = draw(st.sampled_from(["int", "int", "nat"]))
         return c
 
     @st.composite
